@@ -420,6 +420,31 @@ class ReadAssignmentAggregator:
 
 
 # Class for processing all samples against gene database
+def open_reference(reference, fai_file_name):
+    # pyfaidx writes a missing or outdated index (.fai, and .gzi of a BGZF file) in place: a run killed at that moment leaves an
+    # incomplete index that a resumed run (or any later run) would trust, and a run started meanwhile would read it half-written;
+    # so the index is built under a temporary name and gets its name only when it is complete
+    gzi_file_name = reference + ".gzi"
+    compressed = reference.lower().endswith(('.bgz', '.gz'))
+
+    def outdated(index_file):
+        return not os.path.exists(index_file) or os.path.getmtime(index_file) < os.path.getmtime(reference)
+
+    if outdated(fai_file_name) or (compressed and outdated(gzi_file_name)):
+        tmp_fai = "%s.%d.tmp" % (fai_file_name, os.getpid())
+        tmp_gzi = "%s.%d.tmp" % (gzi_file_name, os.getpid())
+        try:
+            Fasta(reference, indexname=tmp_fai, gzi_indexname=tmp_gzi).close()
+            if os.path.exists(tmp_gzi):
+                os.replace(tmp_gzi, gzi_file_name)
+            os.replace(tmp_fai, fai_file_name)
+        finally:
+            for tmp_file in [tmp_fai, tmp_gzi]:
+                if os.path.exists(tmp_file):
+                    os.remove(tmp_file)
+    return Fasta(reference, indexname=fai_file_name)
+
+
 class DatasetProcessor:
     def __init__(self, args):
         self.args = args
@@ -454,7 +479,7 @@ class DatasetProcessor:
             low_ext = outer_ext.lower()
             if low_ext in ['.gz', '.gzip', '.bgz']:
                 try:
-                    self.reference_record_dict = Fasta(self.args.reference, indexname=args.fai_file_name)
+                    self.reference_record_dict = open_reference(self.args.reference, args.fai_file_name)
                 except UnsupportedCompressionFormat:
                     gunzipped_reference = os.path.join(args.output, ref_name)
                     # a copy found in the output folder may come from a previous run with another reference of the same name,
@@ -466,9 +491,9 @@ class DatasetProcessor:
                     os.replace(incomplete_reference, gunzipped_reference)
                     logger.info("Loading uncompressed reference from " + gunzipped_reference)
                     self.args.reference = gunzipped_reference
-                    self.reference_record_dict = Fasta(self.args.reference, indexname=args.fai_file_name)
+                    self.reference_record_dict = open_reference(self.args.reference, args.fai_file_name)
             else:
-                self.reference_record_dict = Fasta(self.args.reference, indexname=args.fai_file_name)
+                self.reference_record_dict = open_reference(self.args.reference, args.fai_file_name)
         else:
             self.reference_record_dict = None
 
